@@ -212,6 +212,31 @@ def source_distance_written(prog):
     return False
 
 
+def _iterator_range_root(hf, site):
+    """(index of `first` parameter, index of `last` parameter) when `site` appends a tree rooted at *it inside
+    for (it = first; it != last; ++it) over two parameters of hf"""
+    lp = site.enclosing('ForStmt')
+    if lp is None or len(site.args()) != 5 or lp.cond is None:
+        return None
+    root = site.args()[4].strip_all()
+    if not (root.k in ('UnaryOperator', 'CXXOperatorCallExpr') and root.op == '*'):
+        return None
+    it = ex.var_of(root.c[-1])
+    init = lp.role('init')
+    first = None
+    for d in (init.walk() if init is not None else ()):
+        if d.k == 'VarDecl' and d.decl_id == it and d.c:
+            first = ex.var_of(d.c[0])
+    c = lp.cond.strip_all()
+    ops = c.c if c.k == 'BinaryOperator' else c.c[1:] if c.k == 'CXXOperatorCallExpr' else []
+    if c.op != '!=' or len(ops) != 2 or it is None or first is None:
+        return None
+    last = ex.var_of(ops[1]) if ex.var_of(ops[0]) == it else ex.var_of(ops[0]) if ex.var_of(ops[1]) == it else None
+    if first in hf.param_ids and last in hf.param_ids:
+        return hf.param_ids.index(first), hf.param_ids.index(last)
+    return None
+
+
 def check_program(rep, prog):
     n = 0
     for fn in prog.functions:
@@ -244,21 +269,71 @@ def check_program(rep, prog):
                     if d.k == 'CallExpr' and d.callee and d.callee['name'] == 'back_inserter':
                         fvs_out = ex.var_of(d.args()[0])
             roots_ok = False
-            for c in fn.walk():
-                if c.k == 'CXXMemberCallExpr' and c.callee and c.callee['name'] == 'emplace_back' and len(c.args()) == 5:
-                    lp = c.enclosing('CXXForRangeStmt')
-                    if lp is not None and lp.role('range') is not None and fvs_out is not None and ex.refs_var(lp.role('range'), fvs_out):
-                        lv = [d.decl_id for d in lp.role('loopvar').walk() if d.k == 'VarDecl']
-                        if lv and ex.var_of(c.args()[4]) == lv[0]:
-                            roots_ok = True
+            wrong, unrec = [], []
+
+            def is_tree_vec(o):
+                t = prog.base_type(o.strip_all().j.get('t')) if o is not None else None
+                return 'SPTree' in ((t or {}).get('canon') or '')
+            sites = [c for c in fn.walk() if c.k == 'CXXMemberCallExpr' and c.callee and c.callee['name'] in ('emplace_back', 'push_back') and
+                     is_tree_vec(c.object_arg())]
+            for c in sites:
+                lp = c.enclosing('CXXForRangeStmt', 'ForStmt', 'WhileStmt')
+                root = c.args()[4] if len(c.args()) == 5 else None
+                if root is None or lp is None:
+                    unrec.append('tree appended at line %d in a form outside the idiom list' % c.line)
+                    continue
+                if lp.k == 'CXXForRangeStmt' and lp.role('range') is not None and fvs_out is not None and ex.refs_var(lp.role('range'), fvs_out):
+                    lv = [d.decl_id for d in lp.role('loopvar').walk() if d.k == 'VarDecl']
+                    if lv and ex.var_of(root) == lv[0]:
+                        roots_ok = True
+                        continue
+                hdr = [x for x in lp.walk() if lp.body is None or not lp.body.is_ancestor_of(x)]
+                if any(x.k == 'CallExpr' and x.callee and x.callee['g'] == 'boost::vertices' for x in hdr):
+                    wrong.append('a tree is rooted at every vertex of the graph (line %d), not only at the feedback vertices' % c.line)
+                else:
+                    unrec.append('root `%s` of the tree appended at line %d is not traced to the greedy_fvs output' % (root.text(20), c.line))
+            # helpers: append_trees(g, w, first, last, trees) whose body appends a tree rooted at *it for it in [first, last)
             srcs = [c for c in fn.walk() if c.k == 'CXXMemberCallExpr' and c.callee and c.callee['name'] == 'insert' and len(c.args()) == 3]
-            from_trees = all(any(ex.var_of(a) is not None and (ex.unique_def(fn, ex.var_of(a.strip_all().object_arg())) is not None if a.strip_all().k == 'CXXMemberCallExpr' else False) for a in c.args()[1:2]) for c in srcs) if srcs else False
             cc_calls = [c for c in fn.walk() if c.k == 'CXXMemberCallExpr' and c.callee and c.callee['name'] == 'create_candidate_cycles']
-            if roots_ok and cc_calls and len(srcs) == 1:
+            cand_ok = bool(cc_calls) and len(srcs) == 1
+            for c in fn.walk():
+                if c.k != 'CallExpr' or not c.callee or not c.callee.get('in_repo') or c.callee_id is None or c.callee['g'] == 'parmcb::greedy_fvs':
+                    continue
+                hf = prog.fn_of_fref(c.callee_id)
+                if hf is None or hf.body is None:
+                    continue
+                if any(is_tree_vec(a) for a in c.args()):
+                    hsites = [x for x in hf.walk() if x.k == 'CXXMemberCallExpr' and x.callee and x.callee['name'] in ('emplace_back', 'push_back') and
+                              is_tree_vec(x.object_arg())]
+                    for x in hsites:
+                        rng = _iterator_range_root(hf, x)
+                        if rng is None:
+                            unrec.append('helper `%s` appends trees in a form outside the idiom list' % hf.g)
+                            continue
+                        pb, pe = rng
+                        ab, ae = c.args()[pb].strip_all(), c.args()[pe].strip_all()
+                        if ab.k == 'CXXMemberCallExpr' and ae.k == 'CXXMemberCallExpr' and ab.callee['name'] in ('begin', 'cbegin') and \
+                                ae.callee['name'] in ('end', 'cend') and ex.var_of(ab.object_arg()) == fvs_out and ex.var_of(ae.object_arg()) == fvs_out and fvs_out is not None:
+                            roots_ok = True
+                        else:
+                            unrec.append('the root range handed to `%s` is not [begin, end) of the greedy_fvs output' % hf.g)
+                    hcc = [x for x in hf.walk() if x.k == 'CXXMemberCallExpr' and x.callee and x.callee['name'] == 'create_candidate_cycles']
+                    hins = [x for x in hf.walk() if x.k == 'CXXMemberCallExpr' and x.callee and x.callee['name'] == 'insert' and len(x.args()) == 3]
+                    if hcc and len(hins) == 1 and not cand_ok:
+                        lp = hcc[0].enclosing('CXXForRangeStmt')
+                        tv = [ex.var_of(a) for a in c.args() if is_tree_vec(a)]
+                        if lp is not None and lp.role('range') is not None and any(ex.refs_var(lp.role('range'), hf.param_ids[i]) for i, a in enumerate(c.args())
+                                                                                   if i < len(hf.param_ids) and is_tree_vec(a)):
+                            cand_ok = True
+            if wrong:
+                rep.violation('R14c', fn.body, fn, what, '; '.join(wrong), key='R14c|%s|provenance' % fn.g)
+            elif roots_ok and cand_ok and not unrec:
                 rep.ok('R14c', fn.body, fn, what, 'roots = output of greedy_fvs; candidates = tree.create_candidate_cycles()')
+            elif not sites and not unrec and not roots_ok and fvs_out is not None and not [c for c in fn.walk() if c.k == 'CallExpr' and c.callee and c.callee.get('in_repo')
+                                                                                           and c.callee['g'] != 'parmcb::greedy_fvs' and any(is_tree_vec(a) for a in c.args())]:
+                rep.violation('R14c', fn.body, fn, what, 'no tree is built for the feedback vertices', key='R14c|%s|provenance' % fn.g)
             else:
-                rep.violation('R14c', fn.body, fn, what, 'trees are not rooted exactly at the greedy_fvs output or candidates come from elsewhere',
-                              key='R14c|%s|provenance' % fn.g)
+                rep.undecided('R14c', fn.body, fn, what, '; '.join(unrec) or 'trees / candidates are built in a form outside the idiom list')
         if fn.g == 'parmcb::detail::ISOCyclesBuilder::operator()':
             what = 'the isometric collection re-emits (tree, edge) pairs read back from guarded Horton candidates only'
             puts = [c for c in fn.walk() if c.k == 'CallExpr' and c.callee and c.callee['g'] == 'boost::put' and len(c.args()) == 3]
